@@ -302,7 +302,7 @@ func main() {
 			facts["layout."+fn] = st.layout(fd)
 		}
 	}
-	for _, fn := range []string{"fileStore.flushPages", "fileStore.update", "fileStore.save", "fileStore.fetch", "fileStore.append", "fileStore.close",
+	for _, fn := range []string{"fileStore.flushPages", "fileStore.update", "fileStore.save", "fileStore.fetch", "fileStore.append", "fileStore.close", "fileStore.open",
 		"newFileStore", "wal.flush", "wal.read", "WALBatch.replay", "InitStorage", "LRUCache.set", "LRUCache.get",
 		"RelationService.CreateTable", "RelationService.createTable", "RelationService.Insert", "RelationService.Update", "RelationService.MarkDeleted",
 		"RelationService.updatePageTable", "RelationService.StartTxn", "RelationService.EndTxn", "OpenRelation", "CreateDB",
@@ -440,6 +440,25 @@ func main() {
 		})
 	}
 
+	// which callers of newFileStore ask for the background flusher (second argument)
+	flusher := map[string]string{}
+	for name, fd := range sf {
+		ast.Inspect(fd.Body, func(n ast.Node) bool {
+			if c, ok := n.(*ast.CallExpr); ok && callName(st, c) == "newFileStore" && len(c.Args) == 2 {
+				arg := "?"
+				if id, ok := c.Args[1].(*ast.Ident); ok {
+					arg = id.Name
+				}
+				if old, seen := flusher[name]; seen && old != arg {
+					arg = "mixed"
+				}
+				flusher[name] = arg
+			}
+			return true
+		})
+	}
+	facts["storage.newFileStore.autoFlush"] = flusher
+
 	lockFacts(facts)
 
 	b, _ := json.MarshalIndent(facts, "", " ")
@@ -524,6 +543,24 @@ func lockFacts(facts map[string]interface{}) {
 		}
 	}
 	facts["lock.logAppendInsideBracket"] = logInside
+	// start-up: the header is read under the exclusive lock (the flusher of the store is already running),
+	// and the only store opened with a flusher outside OpenRelation is none (CreateDB changes pages without a lock)
+	facts["lock.openExclusive"] = hasPrefixSeq(strs(facts["skeleton.storage.fileStore.open"]), "call:f.lockExclusive", "defer:f.unlockExclusive")
+	fl, _ := facts["storage.newFileStore.autoFlush"].(map[string]string)
+	only := true
+	for caller, arg := range fl {
+		if strings.HasPrefix(caller, "Verif") || strings.HasPrefix(caller, "verif") {
+			continue
+		}
+		if caller == "OpenRelation" {
+			only = only && arg == "true"
+		} else {
+			only = only && arg == "false"
+		}
+	}
+	or := strs(facts["skeleton.storage.OpenRelation"])
+	facts["lock.flusherOnlyAfterOpen"] = only && fl["OpenRelation"] == "true" && fl["CreateDB"] == "false" &&
+		indexOf(or, "call:newFileStore") >= 0 && indexOf(or, "call:fs.open") > indexOf(or, "call:newFileStore")
 }
 
 func writeIfChanged(path string, content []byte) {
@@ -626,6 +663,8 @@ func writeLean(dir string, facts map[string]interface{}) {
 	fmt.Fprintf(&lb, "def lockTxnIsSharedLock : Bool := %s\n", bl(facts["lock.txnIsSharedLock"]))
 	fmt.Fprintf(&lb, "def lockPageWritesOnlyInFlush : Bool := %s\n", bl(facts["lock.pageWritesOnlyInFlush"]))
 	fmt.Fprintf(&lb, "def lockLogAppendInsideBracket : Bool := %s\n", bl(facts["lock.logAppendInsideBracket"]))
+	fmt.Fprintf(&lb, "def lockOpenExclusive : Bool := %s\n", bl(facts["lock.openExclusive"]))
+	fmt.Fprintf(&lb, "def lockFlusherOnlyAfterOpen : Bool := %s\n", bl(facts["lock.flusherOnlyAfterOpen"]))
 	lb.WriteString("\nend Mkdb.Generated\n")
 	writeIfChanged(filepath.Join(dir, "Locks.lean"), lb.Bytes())
 }
